@@ -147,6 +147,11 @@ class Tie(object):
       self.expect.append(lambda ans, eng_ok=eng_ok: [("driver", ans["error"])] if "error" in ans else (
         [] if ans["consistent"] == eng_ok else
         [("schema-pred", "model SchemaConsistent=%s, engine oracle=%s" % (ans["consistent"], eng_ok))]))
+    if res.ok:
+      for f in getattr(self, "extra", []):
+        for (op, chk) in f(doc, res):
+          self.ops.append(op)
+          self.expect.append(chk)
     for _ in range(len(self.ops) - len(self.expect)):
       self.expect.append(None)
     self._tag_last(index)
